@@ -156,6 +156,8 @@ def scan_repo(root):
 #   commutative  - iteration only feeds an order-independent accumulation (set/dict update, |=, membership)
 #   not-a-set    - the heuristic fired on a list / dict / other ordered value
 #   internal     - the value never reaches queries, error records or issues
+#   invariant    - the iteration IS order-sensitive in general and is harmless only because of a stated invariant;
+#                  the statements establishing the invariant are listed in GUARDS and checked on every run
 REVIEWED = {}
 
 
@@ -164,7 +166,38 @@ def _r(file, func, kind, expr, why):
 
 
 _r("sigma/correlations.py", "SigmaCorrelationCondition.from_dict", "for", "SigmaCorrelationConditionOperator.operators()",
-   "commutative: exactly one operator key is present (checked three lines above), the loop only finds it")
+   "invariant: ORDER-SENSITIVE (first operator of the set that is a key of the dict wins) unless exactly one operator "
+   "key is present in d; the guard `len(d_keys.intersection(ops)) != 1` over d_keys = ALL keys of d raises before the "
+   "loop otherwise.  Modelled: Model/Determinism.v corr_from_dict (find over ord O corr_ops), theorem "
+   "C20_corr_condition_order_free; the guard statements are checked by the scan (GUARDS)")
+# statements (ast.unparse form) that must occur in the function for the invariant of an `invariant:` site to hold
+GUARDS = {
+    ("sigma/correlations.py", "SigmaCorrelationCondition.from_dict", "for", "SigmaCorrelationConditionOperator.operators()"): [
+        "d_keys = frozenset(d.keys())",
+        "ops = frozenset(SigmaCorrelationConditionOperator.operators())",
+        "if len(d_keys.intersection(ops)) != 1:\n        raise sigma_exceptions.SigmaCorrelationConditionError(",
+        "if op in d:",
+    ],
+}
+
+
+def check_guards(root):
+    """-> list of (site key, missing statement).  Every GUARDS statement must occur in the unparsed function."""
+    missing = []
+    for key, stmts in GUARDS.items():
+        file, func = key[0], key[1]
+        tree = ast.parse(open(os.path.join(root, file), encoding="utf-8").read())
+        node = tree
+        for part in func.split("."):
+            node = next((n for n in ast.walk(node) if isinstance(n, (ast.ClassDef, ast.FunctionDef, ast.AsyncFunctionDef))
+                         and n.name == part and n is not node), None)
+            if node is None:
+                break
+        text = ast.unparse(node) if node is not None else ""
+        for st in stmts:
+            if st not in text:
+                missing.append((key, st))
+    return missing
 _r("sigma/correlations.py", "SigmaCorrelationCondition.from_dict", "comp", "unknown_keys",
    "sorted: the generator over the set is the argument of sorted(), the join sees a sorted list (keys are "
    "stringified first so that non-string keys give a Sigma error instead of TypeError)")
